@@ -10,6 +10,7 @@ import (
 	"github.com/cloudwego/dynamicgo/internal/native/types"
 	"github.com/cloudwego/dynamicgo/meta"
 	"github.com/cloudwego/dynamicgo/thrift"
+	"github.com/cloudwego/dynamicgo/thrift/annotation"
 )
 
 func init() {
@@ -361,7 +362,7 @@ func VerifC02_TopScalar() {
 		desc = thrift.VerifBasic(thrift.BOOL)
 		vrt.Assume(n > 0 && (doc[0] == 't' || doc[0] == 'f'))
 	}
-	_, _, ok := vrt.JParsePrefix(doc)
+	node, end, ok := vrt.JParsePrefix(doc)
 	cv := NewBinaryConv(conv.Options{})
 	buf := make([]byte, 0, 16)
 	err := cv.DoInto(context.Background(), desc, doc, &buf)
@@ -370,6 +371,16 @@ func VerifC02_TopScalar() {
 		vrt.Assert(err != nil, "C02.top-scalar.malformed."+vrt.JErr+".error")
 	} else {
 		vrt.Reach("wellformed")
+		// a document that is exactly one literal of the descriptor's kind converts, to the denoted value
+		if end == n && (node.Kind == vrt.JTrue || node.Kind == vrt.JFalse) {
+			vrt.Assert(err == nil, "C02.top-scalar.bool.converts")
+			if err == nil {
+				vrt.Assert(len(buf) == 1 && (buf[0] == 1) == (node.Kind == vrt.JTrue) && buf[0] <= 1, "C02.top-scalar.bool.value")
+			}
+		}
+		if end == n && node.Kind == vrt.JString {
+			vrt.Assert(err == nil, "C02.top-scalar.string.converts")
+		}
 	}
 }
 
@@ -431,4 +442,45 @@ func VerifC02_Numbers() {
 		label = "C02.number.spelling.negative-zero.value"
 	}
 	vrt.Assert(vrt.BytesEq(buf, 0, len(buf), exp, 0, len(exp)), label)
+}
+
+func init() { vrt.Register("VerifC02_ValueMapping", VerifC02_ValueMapping) }
+
+// VerifC02_ValueMapping: struct{1: i64 id (api.js_conv, requiredness R); 2: string msg} with EnableValueMapping:
+// {"id":"<digits>","msg":"m"} or {"id":<digits>,...}: the field is written exactly once with the denoted value
+// (a value-mapped member counts as present for the requiredness bookkeeping), the other member is unaffected.
+func VerifC02_ValueMapping() {
+	r := vrt.Param("R")
+	st := thrift.VerifNewStruct("V", 3)
+	fid := thrift.VerifAddField(st, thrift.VField{ID: 1, Name: "id", Type: thrift.VerifBasic(thrift.I64), Req: r}, thrift.Options{})
+	thrift.VerifSetValueMapping(fid, annotation.VerifJSConv(), 1)
+	thrift.VerifAddField(st, thrift.VField{ID: 2, Name: "msg", Type: thrift.VerifBasic(thrift.STRING), Req: 2}, thrift.Options{})
+	thrift.VerifBuild(st)
+	opts := conv.Options{EnableValueMapping: true, WriteRequireField: vrt.Bool(), WriteDefaultField: vrt.Bool(), WriteOptionalField: vrt.Bool()}
+	quoted := vrt.Bool()
+	d1 := vrt.U8()
+	vrt.Assume(d1 >= '1' && d1 <= '9')
+	d2 := vrt.U8()
+	vrt.Assume(d2 >= '0' && d2 <= '9')
+	doc := []byte(`{"id":`)
+	if quoted {
+		doc = append(doc, '"', d1, d2, '"')
+	} else {
+		doc = append(doc, d1, d2)
+	}
+	doc = append(doc, `,"msg":"m"}`...)
+	val := int64(d1-'0')*10 + int64(d2-'0')
+	var want []byte
+	want = vrt.PutBE64(vrt.PutField(want, vrt.TI64, 1), val)
+	want = vrt.PutString(vrt.PutField(want, vrt.TSTRING, 2), []byte("m"))
+	want = append(want, 0)
+	cv := NewBinaryConv(opts)
+	out, err := cv.Do(context.Background(), st, doc)
+	vrt.Assert(err == nil, "C02.valuemapping.converts")
+	if err != nil {
+		return
+	}
+	vrt.Reach("converted")
+	vrt.Assert(vrt.TWellFormed(out, vrt.TSTRUCT, 3), "C02.valuemapping.well-formed")
+	vrt.Assert(vrt.BytesEq(out, 0, len(out), want, 0, len(want)), "C02.valuemapping.field-written-once-with-value")
 }
